@@ -5,6 +5,8 @@ import (
 	"fmt"
 	"go/token"
 	"go/types"
+	"os"
+	"regexp"
 	"sort"
 	"strings"
 
@@ -156,6 +158,9 @@ func (x *X) blockWrites(fn *ssa.Function, only map[int]bool) *writeSet {
 				l, c, ok := x.addrLoc(in.Addr)
 				switch {
 				case !ok:
+					if os.Getenv("GOVC_WSDEBUG") != "" {
+						fmt.Fprintln(os.Stderr, "writes: untracked store", in, "in", fn.Name())
+					}
 					w.all = true
 				case c != nil:
 					w.cells[c] = true
@@ -201,8 +206,8 @@ func (x *X) mapKeys(w *writeSet, mt *types.Map) {
 	dummy := x.zero(mt.Key())
 	l := x.mapLoc(mt, "r", dummy)
 	x.addKeys(w, l, mt.Elem())
-	w.keys[l.key+"#has"] = heapSortFor(l, SBool)
-	w.keys["M:"+typeKey(mt)+"#len"] = arrSort(SInt)
+	w.keys[l.key+"#mhas"] = heapSortFor(l, SBool)
+	w.keys["M:"+typeKey(mt)+"#mlen"] = arrSort(SInt)
 }
 
 func (x *X) callWrites(w *writeSet, c *ssa.CallCommon) {
@@ -219,8 +224,8 @@ func (x *X) callWrites(w *writeSet, c *ssa.CallCommon) {
 			mt := c.Args[0].Type().Underlying().(*types.Map)
 			dummy := x.zero(mt.Key())
 			l := x.mapLoc(mt, "r", dummy)
-			w.keys[l.key+"#has"] = heapSortFor(l, SBool)
-			w.keys["M:"+typeKey(mt)+"#len"] = arrSort(SInt)
+			w.keys[l.key+"#mhas"] = heapSortFor(l, SBool)
+			w.keys["M:"+typeKey(mt)+"#mlen"] = arrSort(SInt)
 		}
 		return
 	}
@@ -250,6 +255,9 @@ func (x *X) callWrites(w *writeSet, c *ssa.CallCommon) {
 			}
 			return
 		}
+		if os.Getenv("GOVC_WSDEBUG") != "" {
+			fmt.Fprintln(os.Stderr, "writes: open interface call", c.Method.FullName())
+		}
 		w.all = true
 		return
 	}
@@ -260,6 +268,18 @@ func (x *X) callWrites(w *writeSet, c *ssa.CallCommon) {
 		}
 	}
 	if f == nil {
+		// a function value that is one of several statically known closures
+		if fns, ok := closureTargets(c.Value, map[ssa.Value]bool{}); ok {
+			for _, g := range fns {
+				w.union(x.fnWrites(g))
+			}
+			return
+		}
+	}
+	if f == nil {
+		if os.Getenv("GOVC_WSDEBUG") != "" {
+			fmt.Fprintln(os.Stderr, "writes: dynamic call", c.Value)
+		}
 		w.all = true
 		return
 	}
@@ -292,6 +312,9 @@ func (x *X) callWrites(w *writeSet, c *ssa.CallCommon) {
 		w.union(x.fnWrites(f))
 		return
 	}
+	if os.Getenv("GOVC_WSDEBUG") != "" {
+		fmt.Fprintln(os.Stderr, "writes: unknown callee", full)
+	}
 	w.all = true
 }
 
@@ -305,12 +328,7 @@ func (x *X) addModifies(w *writeSet, m string) {
 		w.alloc = true
 		return
 	}
-	for k, s := range x.heapSorts {
-		if k == m || strings.HasPrefix(k, m+"#") || strings.HasPrefix(k, m+".") {
-			w.keys[k] = s
-		}
-	}
-	w.keys["@"+m] = "" // prefix marker: keys materialised later are matched by prefix
+	w.keys["@"+m] = "" // pattern marker: matching keys are havocked, also those materialised later
 }
 
 var externWrites = map[string]func(x *X, w *writeSet, c *ssa.CallCommon){}
@@ -340,9 +358,11 @@ func (x *X) havocWrites(w *writeSet, why string) {
 	sort.Strings(keys)
 	for _, k := range keys {
 		if strings.HasPrefix(k, "@") {
-			p := k[1:]
+			pat := globToRegexp(k[1:])
+			re := regexp.MustCompile(pat)
+			x.logHavoc(pat)
 			for hk := range x.st.heap {
-				if hk == p || strings.HasPrefix(hk, p+"#") || strings.HasPrefix(hk, p+".") {
+				if hk != "ALLOC" && re.MatchString(hk) {
 					x.st.heap[hk] = x.sc.Fresh("hv."+hk, x.heapSorts[hk])
 					x.written[hk] = true
 				}
@@ -354,7 +374,6 @@ func (x *X) havocWrites(w *writeSet, why string) {
 			srt = old
 		} else {
 			x.heapSorts[k] = srt
-			x.sc.Declare("H0."+sanitize(k), nil, srt)
 		}
 		x.st.heap[k] = x.sc.Fresh("hv."+k, srt)
 		x.written[k] = true
@@ -371,8 +390,19 @@ func (x *X) loopOrdinal(fr *frame, li *loopInfo) int {
 	for h := range fr.loops {
 		hs = append(hs, h)
 	}
+	minPos := func(h int) token.Pos {
+		best := token.NoPos
+		for b := range fr.loops[h].blocks {
+			for _, in := range fr.fn.Blocks[b].Instrs {
+				if p := in.Pos(); p.IsValid() && (best == token.NoPos || p < best) {
+					best = p
+				}
+			}
+		}
+		return best
+	}
 	sort.Slice(hs, func(i, j int) bool {
-		pi, pj := loopPos(fr.fn.Blocks[hs[i]]), loopPos(fr.fn.Blocks[hs[j]])
+		pi, pj := minPos(hs[i]), minPos(hs[j])
 		if pi != pj {
 			return pi < pj
 		}
@@ -399,7 +429,7 @@ func loopPos(b *ssa.BasicBlock) token.Pos {
 // header or function exit: parameters, named phis, named locals.
 func (x *X) envAt(fr *frame, li *loopInfo, phiVals map[*ssa.Phi]Val) *Env {
 	pkg := pkgOf(fr.fn)
-	env := &Env{vars: map[string]TV{}, pkg: pkg}
+	env := &Env{vars: map[string]TV{}, pkg: pkg, old: x.entryState}
 	// named values from debug refs that dominate the header (outside the loop)
 	for _, b := range fr.fn.Blocks {
 		if li != nil && (li.blocks[b.Index] || !b.Dominates(li.header)) {
@@ -442,8 +472,11 @@ func (x *X) envAt(fr *frame, li *loopInfo, phiVals map[*ssa.Phi]Val) *Env {
 		}
 	}
 	for phi, v := range phiVals {
-		if phi.Comment != "" {
+		if phi.Comment != "" && phi.Comment != "rangeindex" {
 			env.vars[phi.Comment] = TV{v, phi.Type()}
+		} else if li != nil && kindOf(phi.Type()) == kInt {
+			// the hidden index of a range loop (last index processed, -1 before the first)
+			env.vars["rangeidx"] = TV{v, phi.Type()}
 		}
 	}
 	return env
@@ -604,9 +637,11 @@ func (x *X) cutLoop(fr *frame, order []*ssa.BasicBlock, li *loopInfo) {
 	var d0 string
 	if len(invs) > 0 || (spec != nil && spec.Decreases != "") {
 		env := x.envAt(fr, li, phiVals)
+		x.polarity = -1
 		for _, inv := range invs {
 			x.assume(x.evalBool(env, inv))
 		}
+		x.polarity = 1
 		if spec != nil && spec.Decreases != "" {
 			d0 = x.define("variant", SInt, x.evalSrc(env, spec.Decreases).V.(S).T)
 		}
@@ -858,9 +893,11 @@ func (x *X) callContract(f *ssa.Function, fs *FuncSpec, args []Val, in ssa.Instr
 	res := x.freshVal(rt, sanitize(f.Name())+".res")
 	env.old = old
 	bindResult(env, res, rt)
+	x.polarity = -1
 	for _, e := range fs.Ensures {
 		x.assume(implies(x.st.cond, x.evalBool(env, e)))
 	}
+	x.polarity = 1
 	return res
 }
 
@@ -901,6 +938,10 @@ func verifyFuncFiltered(prog *Prog, specs *Specs, fn *ssa.Function, tier string,
 		if r := recover(); r != nil {
 			u, ok := r.(unsupported)
 			if !ok {
+				if msg, isStr := r.(string); isStr && strings.HasPrefix(msg, "contract:") {
+					res = []OblResult{{Name: name + "#contract:", Status: "unbound", Detail: msg, Func: name, Kind: "contract"}}
+					return
+				}
 				panic(r)
 			}
 			res = []OblResult{{Name: name + "#subset:", Status: "unsupported", Detail: u.why, Func: name, Kind: "subset"}}
@@ -922,10 +963,13 @@ func verifyFuncFiltered(prog *Prog, specs *Specs, fn *ssa.Function, tier string,
 		x.assume(fmt.Sprintf("(and (> %s 0) (select ALLOC0 %s))", r, r))
 		free = append(free, Ptr{Kind: pObj, Obj: r, Root: t})
 	}
+	x.polarity = -1
 	for _, r := range fs.Requires {
 		x.sc.Assert(x.evalBool(env, r))
 	}
+	x.polarity = 1
 	old := x.st.clone()
+	x.entryState = old
 	ret := x.execFunc(fn, args, free)
 	env.old = old
 	bindResult(env, ret, resultType(fn.Signature))
@@ -984,7 +1028,7 @@ func verifyFuncFiltered(prog *Prog, specs *Specs, fn *ssa.Function, tier string,
 				return
 			}
 			pre := strings.Join(x.sc.lines[:o.Prefix], "\n") + "\n"
-			q := pre + x.strLitDeclsFor(pre) + "(assert " + o.Cond + ")\n(assert (not " + o.Goal + "))\n"
+			q := pre + x.strLitDeclsFor(pre) + x.instances(o.Prefix) + "(assert " + o.Cond + ")\n(assert (not " + o.Goal + "))\n"
 			var r OblResult
 			if fast := solveOneCtx(context.Background(), o.Name, instVariant(q), 3, "z3-new-5.1.0"); fast.Status == "unsat" && tier != "thorough" {
 				r = OblResult{Name: o.Name, Status: "proved", Solver: fast.Solver, Secs: fast.Secs, SMTBytes: len(q), Query: q}
@@ -1001,5 +1045,97 @@ func verifyFuncFiltered(prog *Prog, specs *Specs, fn *ssa.Function, tier string,
 	for _, i := range jobs {
 		res = append(res, out[i])
 	}
+	// frame obligation: everything the body may write is covered by the modifies clause
+	if fs.Modifies != nil {
+		w := x.fnWrites(fn)
+		var pats []*regexp.Regexp
+		allocOK := false
+		for _, m := range fs.Modifies {
+			if m == "alloc" {
+				allocOK = true
+				continue
+			}
+			if m == "nothing" {
+				continue
+			}
+			pats = append(pats, regexp.MustCompile(globToRegexp(m)))
+		}
+		var bad []string
+		if w.all {
+			bad = append(bad, "(unknown code: everything)")
+		}
+		if w.alloc && !allocOK {
+			bad = append(bad, "allocation")
+		}
+		for k := range w.keys {
+			if strings.HasPrefix(k, "@") {
+				k = k[1:]
+			}
+			ok := false
+			for _, re := range pats {
+				if re.MatchString(k) {
+					ok = true
+				}
+			}
+			if !ok {
+				bad = append(bad, k)
+			}
+		}
+		sort.Strings(bad)
+		r := OblResult{Name: name + "#frame:modifies " + strings.Join(fs.Modifies, " "), Status: "proved", Kind: "frame", Func: name, Site: "modifies " + strings.Join(fs.Modifies, " "), Solver: "static may-write analysis over go/ssa", Order: len(x.obls)}
+		if len(bad) > 0 {
+			r.Status = "failed"
+			if len(bad) > 12 && os.Getenv("GOVC_WSDEBUG") == "" {
+				bad = append(bad[:12], "...")
+			}
+			r.Detail = "the body may write " + strings.Join(bad, ", ")
+		}
+		res = append(res, r)
+	}
 	return res
+}
+
+func init() {
+	// sort.Slice / SliceStable: the elements of the slice are permuted.
+	sortSlice := func(x *X, w *writeSet, c *ssa.CallCommon) {
+		if mi, ok := c.Args[0].(*ssa.MakeInterface); ok {
+			if st, ok := mi.X.Type().Underlying().(*types.Slice); ok {
+				x.addKeys(w, loc{key: "E:" + typeKey(st.Elem()), idx: []string{"a", "i"}}, st.Elem())
+				if mc, ok := c.Args[1].(*ssa.MakeClosure); ok {
+					w.union(x.fnWrites(mc.Fn.(*ssa.Function)))
+				}
+				return
+			}
+		}
+		w.all = true
+	}
+	externWrites["sort.Slice"] = sortSlice
+	externWrites["sort.SliceStable"] = sortSlice
+	externWrites["sort.Strings"] = func(x *X, w *writeSet, c *ssa.CallCommon) {
+		x.addKeys(w, loc{key: "E:string", idx: []string{"a", "i"}}, types.Typ[types.String])
+	}
+}
+
+func closureTargets(v ssa.Value, seen map[ssa.Value]bool) ([]*ssa.Function, bool) {
+	if seen[v] {
+		return nil, true
+	}
+	seen[v] = true
+	switch v := v.(type) {
+	case *ssa.MakeClosure:
+		return []*ssa.Function{v.Fn.(*ssa.Function)}, true
+	case *ssa.Function:
+		return []*ssa.Function{v}, true
+	case *ssa.Phi:
+		var out []*ssa.Function
+		for _, e := range v.Edges {
+			fs, ok := closureTargets(e, seen)
+			if !ok {
+				return nil, false
+			}
+			out = append(out, fs...)
+		}
+		return out, true
+	}
+	return nil, false
 }
